@@ -62,6 +62,25 @@ theorem ensemble_result (step : W → S → W) (detect : W → M) (w0 : W) (p : 
       exact List.mem_append_right _ (mem_planeWrites step detect _ w0 _ ps _ j hj)
 
 
+/-- **The same from the entry of `multislice_and_detect`, for incident waves handed over in either representation**
+(`recip`: reciprocal space; `toReal`: the uninterpreted inverse transform of `ensure_real_space`): every configuration starts
+from the incident wave *after* the representation change, never from the wave as handed over. -/
+theorem ensemble_result_from (step : W → S → W) (detect : W → M) (toReal : W → W) (recip : Bool) (w : W) (p : Pot S)
+    (ent : Bool) (ps : List Nat)
+    (hp : p.planes = natPlanes ent ps) (hens : p.ensAxis = true) (hmulti : 2 ≤ p.configs.length)
+    (hs : ps.Pairwise (· < ·)) (hb : ∀ cfg ∈ p.configs, ∀ q ∈ ps, q < cfg.length) (hne : ent = true ∨ ps ≠ []) :
+    ∃ out, multisliceAndDetectFrom step detect toReal recip w p = .ok out ∧
+      ∀ (c : Nat) (hc : c < p.configs.length),
+        (ent = true → out.get (measurementIndex p c 0) = some (detect (ensureReal toReal recip w))) ∧
+        ∀ (j : Nat) (hj : j < ps.length),
+          out.get (measurementIndex p c (startIndex ent + j))
+            = some (detect (waveAt step (ensureReal toReal recip w) p.configs[c] (ps[j] + 1))) :=
+  ensemble_result step detect (ensureReal toReal recip w) p ent ps hp hens hmulti hs hb hne
+
+/-- handing the incident wave over in reciprocal space is the same as handing over its real-space transform -/
+theorem representation_indep (step : W → S → W) (detect : W → M) (toReal : W → W) (w : W) (p : Pot S) :
+    multisliceAndDetectFrom step detect toReal true w p = multisliceAndDetectFrom step detect toReal false (toReal w) p := rfl
+
 /-- Entry `(c, plane j)` of the ensemble run equals entry `(plane j)` of the independent run through a potential that
 consists of configuration `c` alone (same exit planes, same incident wave). -/
 theorem config_result_eq_single_run (step : W → S → W) (detect : W → M) (w0 : W) (p : Pot S) (ent : Bool) (ps : List Nat)
@@ -175,6 +194,8 @@ example : (multisliceAndDetect hstep hdetect [] ⟨true, natPlanes true [1], 2, 
     (fun o => o.get [1, 0]) = some [] := by decide
 example : (multisliceAndDetect hstep hdetect [] ⟨true, natPlanes true [1], 2, [[1, 2], [3, 4]]⟩).toOption.bind
     (fun o => o.get [1, 1]) = some [3, 4] := by decide
+example : (multisliceAndDetectFrom hstep hdetect htoReal true [] ⟨true, natPlanes true [1], 2, [[1, 2], [3, 4]]⟩).toOption.bind
+    (fun o => o.get [1, 0]) = some [0] := by decide
 example : configSeeds [2, 1] [11, 22, 33] = [11, 22, 33] := by decide
 example : partitionSeeds [2, 1] [11, 22, 33] = [[11, 22], [33]] := by decide
 
